@@ -42,7 +42,7 @@ package frame
 // ---- element access through views (C11): every operation addresses exactly rows [off, off+len) ----
 // (abstract column memory ColMem and the role contracts of the per-column closures are in /verif/trusted/frame.contracts)
 
-//@ spec func colOK(d data) bool = opsCol(d.ops) == d.ptr && rvCol(d.val) == d.ptr && rvOff(d.val) == 0 && rvCap(d.val) == colLen(d.ptr) && rvLen(d.val) <= colLen(d.ptr) && d.typ.size >= 1
+//@ spec func colOK(d data) bool = opsCol(d.ops) == d.ptr && rvCol(d.val) == d.ptr && rvOff(d.val) == 0 && rvCap(d.val) == colLen(d.ptr) && rvLen(d.val) <= colLen(d.ptr) && d.typ.size >= 1 && pcol(d.ptr) == d.ptr && pidx(d.ptr, d.typ.size) == 0 && typeSize(d.typ.ptr) == d.typ.size && rtSize(d.typ.Type) == d.typ.size && colStamp(d.ptr) <= colClock
 //@ spec func wf(f Frame) bool = 0 <= f.off && 0 <= f.len && f.len <= f.cap && -1 <= f.prefix && f.prefix < len(f.data) && forall(k, 0, len(f.data), colOK(f.data[k]) && f.off + f.cap <= colLen(f.data[k].ptr))
 //@ spec func cellAt(f Frame, c int, i int) int = ColMem[f.data[c].ptr][f.off+i]
 //@ spec func cellLess(f Frame, c int, i int, j int) bool = elemLess(colKind(f.data[c].ptr), cellAt(f, c, i), cellAt(f, c, j))
@@ -109,3 +109,218 @@ package frame
 //@   requires wf(f) && 0 <= i && i < f.len && f.prefix >= 0
 //@   ensures  result == rowHash(f, i, 0)
 //@   modifies nothing
+
+// ---- address-level operations (C11): computed element addresses denote exactly rows off.. of the column ----
+
+//@ func frame.Frame.UnsafeIndexPointer
+//@   requires wf(f) && 0 <= col && col < len(f.data) && 0 <= i && i < f.len
+//@   flag nlarith
+//@   ensures  cell: pcol(result) == f.data[col].ptr && pidx(result, f.data[col].typ.size) == f.off + i
+//@   modifies nothing
+
+//@ func frame.Frame.Zero
+//@   requires wf(f) && distinctCols(f)
+//@   flag nlarith
+//@   ensures  view-zeroed: forall(c, 0, len(f.data), forall(k, f.off, f.off + f.len, ColMem[f.data[c].ptr][k] == zeroElem(f.data[c].ptr)))
+//@   ensures  rows-outside-untouched: forall(c, 0, len(f.data), forall(k, implies(k < f.off || k >= f.off + f.len, ColMem[f.data[c].ptr][k] == old(ColMem[f.data[c].ptr][k]))))
+//@   modifies ColMem
+//@   loop 1 invariant forall(c, 0, range_idx, forall(k, f.off, f.off + f.len, ColMem[f.data[c].ptr][k] == zeroElem(f.data[c].ptr)))
+//@   loop 1 invariant forall(c, 0, range_idx, forall(k, implies(k < f.off || k >= f.off + f.len, ColMem[f.data[c].ptr][k] == old(ColMem[f.data[c].ptr][k]))))
+//@   loop 1 invariant forall(c, range_idx, len(f.data), ColMem[f.data[c].ptr] == old(ColMem[f.data[c].ptr]))
+
+//@ spec func compatible(f Frame, g Frame) bool = len(f.data) == len(g.data) && forall(k, 0, len(f.data), f.data[k].typ.Type == g.data[k].typ.Type)
+// A column of src is either not a column of dst, or it is dst's column at the same position (so that copying
+// column k cannot clobber a later source column).
+//@ spec func isColOf(f Frame, c Ref) bool = exists(k, 0, len(f.data), f.data[k].ptr == c)
+//@ spec func crossOK(dst Frame, src Frame) bool = forall(a, 0, len(dst.data), forall(b, 0, len(src.data), implies(dst.data[a].ptr == src.data[b].ptr, a == b)))
+// Columns of equal type have equal element sizes (sizes are a function of the type).
+//@ spec func sizesAgree(dst Frame, src Frame) bool = forall(k, 0, len(dst.data), dst.data[k].typ.size == src.data[k].typ.size)
+
+//@ func frame.Compatible
+//@   ensures result == compatible(f, g)
+//@   modifies nothing
+//@   loop 1 invariant len(f.data) == len(g.data) && forall(k, 0, range_idx, f.data[k].typ.Type == g.data[k].typ.Type)
+
+//@ extern func frame.Frame.String
+//@   modifies nothing
+
+//@ func frame.Copy (dst, src) (n)
+//@   requires wf(dst) && wf(src) && distinctCols(dst) && crossOK(dst, src) && implies(compatible(dst, src), sizesAgree(dst, src))
+//@   flag nlarith
+//@   panics_if !compatible(dst, src)
+//@   ensures  count: implies(len(dst.data) >= 1, n == min(dst.len, src.len)) && implies(len(dst.data) == 0, n == 0 || n == 1)   -- (frames without columns report 0 rows unless both have length 1)
+//@   ensures  moved: forall(k, 0, len(dst.data), forall(r, dst.off, dst.off + n, ColMem[dst.data[k].ptr][r] == old(ColMem[src.data[k].ptr][src.off + (r - dst.off)])))
+//@   ensures  rows-outside-untouched: forall(k, 0, len(dst.data), forall(r, implies(r < dst.off || r >= dst.off + n, ColMem[dst.data[k].ptr][r] == old(ColMem[dst.data[k].ptr][r]))))
+//@   ensures  other-columns-untouched: forall(c, implies(!isColOf(dst, Ref(c)), ColMem[Ref(c)] == old(ColMem[Ref(c)])))
+//@   modifies ColMem
+//@   loop 1 invariant forall(k, 0, range_idx, forall(r, dst.off, dst.off + 1, ColMem[dst.data[k].ptr][r] == old(ColMem[src.data[k].ptr][src.off + (r - dst.off)])))
+//@   loop 1 invariant forall(k, 0, range_idx, forall(r, implies(r < dst.off || r >= dst.off + 1, ColMem[dst.data[k].ptr][r] == old(ColMem[dst.data[k].ptr][r]))))
+//@   loop 1 invariant forall(k, range_idx, len(dst.data), ColMem[dst.data[k].ptr] == old(ColMem[dst.data[k].ptr]))
+//@   loop 1 invariant forall(c, implies(!isColOf(dst, Ref(c)), ColMem[Ref(c)] == old(ColMem[Ref(c)])))
+//@   loop 2 invariant implies(range_idx > 0, n == min(dst.len, src.len)) && implies(len(dst.data) == 0, n == 0)
+//@   loop 2 invariant forall(k, 0, range_idx, forall(r, dst.off, dst.off + min(dst.len, src.len), ColMem[dst.data[k].ptr][r] == old(ColMem[src.data[k].ptr][src.off + (r - dst.off)])))
+//@   loop 2 invariant forall(k, 0, range_idx, forall(r, implies(r < dst.off || r >= dst.off + min(dst.len, src.len), ColMem[dst.data[k].ptr][r] == old(ColMem[dst.data[k].ptr][r]))))
+//@   loop 2 invariant forall(k, range_idx, len(dst.data), ColMem[dst.data[k].ptr] == old(ColMem[dst.data[k].ptr]))
+//@   loop 2 invariant forall(c, implies(!isColOf(dst, Ref(c)), ColMem[Ref(c)] == old(ColMem[Ref(c)])))
+
+// ---- built-in per-type operators (ops_builtin.go): comparison and hashing are functions of the element values only ----
+//@ spec func h32(x uint32, seed uint32) uint32
+//@ spec func h64(x uint64, seed uint32) uint32
+//@ spec func murmurOf(b []byte, seed uint32) uint32
+//@ spec func f32bits(f float32) uint32
+//@ spec func f64bits(f float64) uint64
+//@ extern func frame.hash32
+//@   ensures result == h32(x, seed)
+//@   modifies nothing
+//@ extern func frame.hash64
+//@   ensures result == h64(x, seed)
+//@   modifies nothing
+//@ extern func github.com/spaolacci/murmur3.Sum32WithSeed (data, seed)
+//@   ensures result == murmurOf(data, seed)
+//@   modifies nothing
+//@ extern func math.Float32bits
+//@   ensures result == f32bits(f)
+//@   modifies nothing
+//@ extern func math.Float64bits
+//@   ensures result == f64bits(f)
+//@   modifies nothing
+
+//@ func frame.init@ops_builtin$2   -- Less for []string
+//@   requires 0 <= i && i < len(slice) && 0 <= j && j < len(slice)
+//@   ensures  value-only: result == (slice[i] < slice[j])
+//@   modifies nothing
+//@ func frame.init@ops_builtin$3   -- HashWithSeed for []string
+//@   requires 0 <= i && i < len(slice)
+//@   ensures  value-only: result == murmurOf([]byte(slice[i]), seed)
+//@   modifies nothing
+//@ func frame.init@ops_builtin$5   -- Less for []uint
+//@   requires 0 <= i && i < len(slice) && 0 <= j && j < len(slice)
+//@   ensures  value-only: result == (slice[i] < slice[j])
+//@   modifies nothing
+//@ func frame.init@ops_builtin$6   -- HashWithSeed for []uint
+//@   requires 0 <= i && i < len(slice)
+//@   ensures  value-only: result == h64(uint64(slice[i]), seed)
+//@   modifies nothing
+//@ func frame.init@ops_builtin$8   -- Less for []uint8
+//@   requires 0 <= i && i < len(slice) && 0 <= j && j < len(slice)
+//@   ensures  value-only: result == (slice[i] < slice[j])
+//@   modifies nothing
+//@ func frame.init@ops_builtin$9   -- HashWithSeed for []uint8
+//@   requires 0 <= i && i < len(slice)
+//@   ensures  value-only: result == h32(uint32(slice[i]), seed)
+//@   modifies nothing
+//@ func frame.init@ops_builtin$11   -- Less for []uint16
+//@   requires 0 <= i && i < len(slice) && 0 <= j && j < len(slice)
+//@   ensures  value-only: result == (slice[i] < slice[j])
+//@   modifies nothing
+//@ func frame.init@ops_builtin$12   -- HashWithSeed for []uint16
+//@   requires 0 <= i && i < len(slice)
+//@   ensures  value-only: result == h32(uint32(slice[i]), seed)
+//@   modifies nothing
+//@ func frame.init@ops_builtin$14   -- Less for []uint32
+//@   requires 0 <= i && i < len(slice) && 0 <= j && j < len(slice)
+//@   ensures  value-only: result == (slice[i] < slice[j])
+//@   modifies nothing
+//@ func frame.init@ops_builtin$15   -- HashWithSeed for []uint32
+//@   requires 0 <= i && i < len(slice)
+//@   ensures  value-only: result == h32(uint32(slice[i]), seed)
+//@   modifies nothing
+//@ func frame.init@ops_builtin$17   -- Less for []uint64
+//@   requires 0 <= i && i < len(slice) && 0 <= j && j < len(slice)
+//@   ensures  value-only: result == (slice[i] < slice[j])
+//@   modifies nothing
+//@ func frame.init@ops_builtin$18   -- HashWithSeed for []uint64
+//@   requires 0 <= i && i < len(slice)
+//@   ensures  value-only: result == h64(uint64(slice[i]), seed)
+//@   modifies nothing
+//@ func frame.init@ops_builtin$20   -- Less for []int
+//@   requires 0 <= i && i < len(slice) && 0 <= j && j < len(slice)
+//@   ensures  value-only: result == (slice[i] < slice[j])
+//@   modifies nothing
+//@ func frame.init@ops_builtin$21   -- HashWithSeed for []int
+//@   requires 0 <= i && i < len(slice)
+//@   ensures  value-only: result == h64(uint64(slice[i]), seed)
+//@   modifies nothing
+//@ func frame.init@ops_builtin$23   -- Less for []int8
+//@   requires 0 <= i && i < len(slice) && 0 <= j && j < len(slice)
+//@   ensures  value-only: result == (slice[i] < slice[j])
+//@   modifies nothing
+//@ func frame.init@ops_builtin$24   -- HashWithSeed for []int8
+//@   requires 0 <= i && i < len(slice)
+//@   ensures  value-only: result == h32(uint32(slice[i]), seed)
+//@   modifies nothing
+//@ func frame.init@ops_builtin$26   -- Less for []int16
+//@   requires 0 <= i && i < len(slice) && 0 <= j && j < len(slice)
+//@   ensures  value-only: result == (slice[i] < slice[j])
+//@   modifies nothing
+//@ func frame.init@ops_builtin$27   -- HashWithSeed for []int16
+//@   requires 0 <= i && i < len(slice)
+//@   ensures  value-only: result == h32(uint32(slice[i]), seed)
+//@   modifies nothing
+//@ func frame.init@ops_builtin$29   -- Less for []int32
+//@   requires 0 <= i && i < len(slice) && 0 <= j && j < len(slice)
+//@   ensures  value-only: result == (slice[i] < slice[j])
+//@   modifies nothing
+//@ func frame.init@ops_builtin$30   -- HashWithSeed for []int32
+//@   requires 0 <= i && i < len(slice)
+//@   ensures  value-only: result == h32(uint32(slice[i]), seed)
+//@   modifies nothing
+//@ func frame.init@ops_builtin$32   -- Less for []int64
+//@   requires 0 <= i && i < len(slice) && 0 <= j && j < len(slice)
+//@   ensures  value-only: result == (slice[i] < slice[j])
+//@   modifies nothing
+//@ func frame.init@ops_builtin$33   -- HashWithSeed for []int64
+//@   requires 0 <= i && i < len(slice)
+//@   ensures  value-only: result == h64(uint64(slice[i]), seed)
+//@   modifies nothing
+//@ func frame.init@ops_builtin$35   -- Less for []float32
+//@   requires 0 <= i && i < len(slice) && 0 <= j && j < len(slice)
+//@   ensures  value-only: result == (slice[i] < slice[j])
+//@   modifies nothing
+//@ func frame.init@ops_builtin$36   -- HashWithSeed for []float32
+//@   requires 0 <= i && i < len(slice)
+//@   ensures  value-only: result == h32(f32bits(slice[i]), seed)
+//@   modifies nothing
+//@ func frame.init@ops_builtin$38   -- Less for []float64
+//@   requires 0 <= i && i < len(slice) && 0 <= j && j < len(slice)
+//@   ensures  value-only: result == (slice[i] < slice[j])
+//@   modifies nothing
+//@ func frame.init@ops_builtin$39   -- HashWithSeed for []float64
+//@   requires 0 <= i && i < len(slice)
+//@   ensures  value-only: result == h64(f64bits(slice[i]), seed)
+//@   modifies nothing
+//@ func frame.init@ops_builtin$41   -- Less for []uintptr
+//@   requires 0 <= i && i < len(slice) && 0 <= j && j < len(slice)
+//@   ensures  value-only: result == (slice[i] < slice[j])
+//@   modifies nothing
+//@ func frame.init@ops_builtin$42   -- HashWithSeed for []uintptr
+//@   requires 0 <= i && i < len(slice)
+//@   ensures  value-only: result == h64(uint64(slice[i]), seed)
+//@   modifies nothing
+
+// ---- growth (C11): a grown frame keeps its rows; fresh storage is zeroed and shares no column with anything else ----
+
+//@ extern func frame.Make (types, len, cap) (g)
+//@   panics_if len < 0 || len > cap
+//@   ensures  wf(g) && distinctCols(g) && g.off == 0 && g.len == len && g.cap == cap
+//@   ensures  typed: len(g.data) == typeNumOut(types) && g.prefix == typePrefix(types) - 1 && forall(k, 0, len(g.data), g.data[k].typ.Type == typeOut(types, k))
+//@   ensures  fresh-columns: colClock == old(colClock) + 1 && forall(k, 0, len(g.data), colStamp(g.data[k].ptr) == colClock)
+//@   ensures  zero-filled: forall(k, 0, len(g.data), forall(r, 0, cap, ColMem[g.data[k].ptr][r] == zeroElem(g.data[k].ptr)))
+//@   ensures  nothing-else-touched: forall(c, implies(colStamp(Ref(c)) <= old(colClock), ColMem[Ref(c)] == old(ColMem[Ref(c)])))
+//@   modifies ColMem, colClock
+
+// A Frame used as a slicetype.Type describes its own columns.
+//@ axiom frame-as-type: typeNumOut(boxed(f, slicetype.Type)) == len(f.data) && typePrefix(boxed(f, slicetype.Type)) == f.prefix + 1
+//@   vars f Frame
+
+//@ func frame.Frame.grow (need) (g, i0, i1)
+//@   requires wf(f) && distinctCols(f) && forall(k, 0, len(f.data), typeOut(boxed(f, slicetype.Type), k) == f.data[k].typ.Type) && len(f.data) >= 1
+//@   flag nlarith
+//@   panics_if need < 0
+//@   ensures  bounds: i0 == f.len && i1 == f.len + need && g.len == i1 && g.len <= g.cap && g.prefix == f.prefix && len(g.data) == len(f.data)
+//@   ensures  wf(g) && distinctCols(g)
+//@   ensures  in-place-when-it-fits: implies(f.len + need <= f.cap, g.data == f.data && g.off == f.off && g.cap == f.cap && ColMem == old(ColMem))
+//@   ensures  rows-kept: forall(k, 0, len(f.data), forall(r, 0, f.len, ColMem[g.data[k].ptr][g.off + r] == old(ColMem[f.data[k].ptr][f.off + r])))
+//@   ensures  old-storage-untouched: forall(k, 0, len(f.data), ColMem[f.data[k].ptr] == old(ColMem[f.data[k].ptr]))
+//@   modifies ColMem, colClock
+//@   loop 1 invariant m >= f.cap && m > 0 && i0 == f.len && i1 == i0 + need && i1 > f.cap && need >= 0
